@@ -30,9 +30,22 @@ def lin(prog, fn, v, depth=0):
         return {'L': 1}
     if v.kind == 'load' and v.fields() == ('0',) and strip(v.args[0]).kind == 'bin':
         return lin(prog, fn, v.args[0], depth + 1)
+    if v.kind == 'call' and v.callee_name() in ('wrapping_sub', 'wrapping_add') and prog.classify(v) == 'std' and len(v.args) == 2 and (v.ty or '') == 'u32':
+        # modular arithmetic on the handle type: the form carries the marker 'w' (a result of -1 IS u32::MAX)
+        a, b = lin(prog, fn, v.args[0], depth + 1), lin(prog, fn, v.args[1], depth + 1)
+        if isinstance(a, dict) and isinstance(b, dict) and 'w' not in a and 'w' not in b:
+            s = 1 if v.callee_name() == 'wrapping_add' else -1
+            out = dict(a)
+            for k, c in b.items():
+                out[k] = out.get(k, 0) + s * c
+            out['w'] = 1
+            return out
+        return None
     if v.kind == 'bin':
         op = v.args[0].replace('WithOverflow', '').replace('Unchecked', '')
         a, b = lin(prog, fn, v.args[1], depth + 1), lin(prog, fn, v.args[2], depth + 1)
+        if (isinstance(a, dict) and 'w' in a) or (isinstance(b, dict) and 'w' in b):
+            return None
         if isinstance(a, dict) and isinstance(b, dict) and op in ('Add', 'Sub'):
             s = 1 if op == 'Add' else -1
             out = dict(a)
@@ -141,7 +154,7 @@ def list_step(ctx, prog, fn, direction):
                 val = None
                 if d.kind == 'bin' and d.args[0] in ('Lt', 'Le', 'Gt', 'Ge', 'Eq', 'Ne'):
                     fa, fb = lin(prog, fn, d.args[1]), lin(prog, fn, d.args[2])
-                    if isinstance(fa, dict) and isinstance(fb, dict):
+                    if isinstance(fa, dict) and isinstance(fb, dict) and 'w' not in fa and 'w' not in fb:
                         val = decide_cmp(d.args[0], fa, fb, case)
                         if val is None:
                             # a position compared with a constant next to u32::MAX: a handle in contract is a position, and
@@ -201,6 +214,14 @@ def list_step(ctx, prog, fn, direction):
         table[case] = [('EMPTY' if r == 'EMPTY' else (None if r is None else dict(r))) for r in res]
         at_end = case in ('LAST', 'FIRST')
         for r in res:
+            if isinstance(r, dict) and 'w' in r:
+                # a wrapped form: exact when it stays within the type; -1 is the type's largest value
+                r = {k: c for k, c in r.items() if k != 'w'}
+                ev = subst(r, case)
+                if ev == ('const', -1) and prog.EMPTY_REF == 2 ** 32 - 1:
+                    r = 'EMPTY'
+                elif not (ev is not None and ((ev[0] == 'const' and 0 <= ev[1]) or (ev[0] == 'range' and ev[1] is not None and ev[1] >= 0))):
+                    r = None
             if at_end:
                 if r != 'EMPTY':
                     problems.append('a step from the %s position returns %s instead of EMPTY_REF' % ('last' if direction > 0 else 'first', r))
